@@ -24,7 +24,8 @@ pub const F_FS: u32 = 2048;
 pub const F_DISK: u32 = 4096;
 pub const F_SPANS: u32 = 8192;
 pub const F_CONCURRENT: u32 = 16384;
-pub const ALL_FAULTS: [(u32, &str); 15] = [(F_CONCURRENT, "concurrent_pairs"), (F_SPANS, "token_built_inputs"), (F_DISK, "warm_disk"), (F_IDENT, "identity"), (F_FS, "filesystem"), (F_ENTROPY, "entropy"), (F_THREAD, "thread"), (F_HISTORY, "history"), (F_ENV, "env"), (F_CLOCK, "clock"), (F_HEAP, "heap"), (F_PID, "pid"), (F_ORDER, "order_policy"), (F_CWD, "cwd"), (F_ARGV, "argv")];
+pub const F_BUILD: u32 = 32768;
+pub const ALL_FAULTS: [(u32, &str); 16] = [(F_BUILD, "second_build_of_the_expander"), (F_CONCURRENT, "concurrent_pairs"), (F_SPANS, "token_built_inputs"), (F_DISK, "warm_disk"), (F_IDENT, "identity"), (F_FS, "filesystem"), (F_ENTROPY, "entropy"), (F_THREAD, "thread"), (F_HISTORY, "history"), (F_ENV, "env"), (F_CLOCK, "clock"), (F_HEAP, "heap"), (F_PID, "pid"), (F_ORDER, "order_policy"), (F_CWD, "cwd"), (F_ARGV, "argv")];
 
 pub fn fault_names(mask: u32) -> Vec<&'static str> {
     ALL_FAULTS.iter().filter(|(b, _)| mask & b != 0).map(|(_, n)| *n).collect()
@@ -40,6 +41,9 @@ pub enum Backend {
 pub enum Build {
     Plain,
     Hooked,
+    /// the second, independently built copy of the guard-off expander (other directory, other
+    /// simulated build machine / time / user, other profile)
+    PlainB,
 }
 
 impl Backend {
@@ -63,12 +67,14 @@ impl Build {
         match self {
             Build::Plain => "plain",
             Build::Hooked => "hooked",
+            Build::PlainB => "plainb",
         }
     }
     pub fn parse(s: &str) -> Option<Build> {
         match s {
             "plain" => Some(Build::Plain),
             "hooked" => Some(Build::Hooked),
+            "plainb" => Some(Build::PlainB),
             _ => None,
         }
     }
@@ -113,12 +119,14 @@ pub struct HostCfg {
     /// simulated disk (where an expansion's writes land): false = cold, wiped before this host
     /// starts; true = warm, as the previous host of the world left it
     pub warm_disk: bool,
+    /// run the second, independently built copy of the expander (plain build only)
+    pub alt_build: bool,
     pub events: Vec<Event>,
 }
 
 impl HostCfg {
     pub fn reference() -> HostCfg {
-        HostCfg { entropy_seed: 0, entropy_skip: 0, env: vec![], clock_epoch_ns: 0, clock_step_ns: 1, pid: 1000, cwd: "/".into(), argv: vec![], hostname: None, uid: None, ncpu: None, exe: None, fs_map: vec![], warm_disk: false, events: vec![] }
+        HostCfg { entropy_seed: 0, entropy_skip: 0, env: vec![], clock_epoch_ns: 0, clock_step_ns: 1, pid: 1000, cwd: "/".into(), argv: vec![], hostname: None, uid: None, ncpu: None, exe: None, fs_map: vec![], warm_disk: false, alt_build: false, events: vec![] }
     }
 
     /// which fault dimensions of `self` differ from the reference configuration
@@ -150,6 +158,9 @@ impl HostCfg {
         }
         if self.warm_disk != reference.warm_disk {
             m |= F_DISK
+        }
+        if self.alt_build != reference.alt_build {
+            m |= F_BUILD
         }
         m
     }
@@ -279,6 +290,7 @@ pub struct HarnessError(pub String);
 /// Execute one simulated host: a fresh process with exactly the environment block, clock,
 /// pid, entropy stream, working directory and history given by `cfg`.
 pub fn run_host(env: &Env, backend: Backend, build: Build, texts: &[(u32, String)], cfg: &HostCfg) -> Result<HostLog, HarnessError> {
+    let build = if cfg.alt_build && build == Build::Plain && env.host_bin(backend, Build::PlainB).is_some() { Build::PlainB } else { build };
     let bin = env.host_bin(backend, build).ok_or_else(|| HarnessError(format!("no host binary for {}/{}", backend.tag(), build.tag())))?;
     let mut plan = String::new();
     // only define the inputs this host uses, in id order
@@ -844,6 +856,9 @@ pub fn plan_world(ws: u64, corpus: &Corpus, o: &PlanOpts) -> World {
         }
         if f & F_DISK != 0 {
             cfg.warm_disk = rng.chance(2, 3);
+        }
+        if f & F_BUILD != 0 && build == Build::Plain {
+            cfg.alt_build = rng.chance(2, 3);
         }
         // history
         let nthreads = if f & F_THREAD != 0 { rng.range(2, 4) } else { 1 };
